@@ -143,7 +143,7 @@ Fixpoint padr (c : span_cfg) (done seg : list elem) (after : list elem) : list e
           let f1 := set_dsl f sl in
           if qltb sl (c_padding c) then
             match bump seg (Fib f1) (c_padding c - sl) with
-            | (seg', Fib f2, Some att) => padr c done (Fib (set_dsl f2 (sl + att)) :: seg') t
+            | (seg', Fib f2, Some _) => padr c done (Fib (set_dsl f2 (sl + (c_padding c - sl))) :: seg') t
             | (seg', e2, _) => padr c done (e2 :: seg') t           (* the span starts with a Fused: no padding *)
             end
           else padr c done (Fib f1 :: seg) t
@@ -211,7 +211,8 @@ Definition targets (c : span_cfg) (pref_total prev_dp prev_voa node_loss : Q) (t
 (* set_amplifier_voa: the automatic output VOA (0 when not applicable) and the argument of its rounding *)
 Definition auto_voa_raw (pmax gmax power_target gain : Q) : Q := Qmin (pmax - power_target) (gmax - gain).
 Definition auto_voa (c : span_cfg) (pmax gmax power_target gain : Q) : Q :=
-  Qmax (round2float (auto_voa_raw pmax gmax power_target gain) (c_voa_step c) - c_voa_margin c) 0.
+  let raw := auto_voa_raw pmax gmax power_target gain in
+  Qmax (Qmin (round2float raw (c_voa_step c) - c_voa_margin c) raw) 0.     (* capped at the head-room *)
 
 (* set_one_amplifier; returns the designed point and the (dp, voa) handed to the next amplifier *)
 Definition set_one (c : span_cfg) (lib : list amp) (bmin bmax pref_total prev_dp prev_voa node_loss : Q)
